@@ -357,6 +357,24 @@ def rule_foreign_feedback_table(ctx, idx, T, rid="R03.8"):
             if got != want:
                 r.violate(key, f"in {ns.split('::')[-1]} content a <{name or t}> start tag gives `{got}`, specification-derived table says `{want}`" + (": every such tag is handed to the lexer and its bytes are held back until the tag is complete although nothing depends on it" if got == "request" else ""), "src/parser/tree_builder_simulator/mod.rs")
     r.control(("font" not in T.FOREIGN_BREAKOUT) and ("p" in T.FOREIGN_BREAKOUT), "reference break-out list has <p> but not the conditional <font>")
+    # top level: <svg> / <math> open their namespace wherever they occur (also nested in foreign content); otherwise the
+    # foreign-content table applies outside the HTML namespace and the text-type table inside it
+    gf = idx.one("get_feedback_for_start_tag", owner="TreeBuilderSimulator")
+    it0 = Interp(idx, helpers={("method", "enter_ns"): lambda itp, rv, args, env: ("ENTER", args[0]),
+                               ("method", "get_feedback_for_start_tag_in_foreign_content"): lambda itp, rv, args, env: "FOREIGN",
+                               "get_text_type_adjustment": lambda itp, args, env: "TEXTADJ"})
+    for ns in ("Namespace::Html", "Namespace::Svg", "Namespace::MathML"):
+        for t in [OTHER, EMPTY] + tags:
+            try:
+                v = it0.call_fn(gf, [t], self_env={"self.current_ns": ns, "self.strict": False})
+            except EngineError as e:
+                raise EngineError(rid + ": " + str(e))
+            v = v[1] if isinstance(v, tuple) and v and v[0] == "Ok" else v
+            want = ("ENTER", "Namespace::Svg") if t == "Svg" else ("ENTER", "Namespace::MathML") if t == "Math" else ("TEXTADJ" if ns == "Namespace::Html" else "FOREIGN")
+            key = "top|%s|%s" % (ns.split("::")[-1], t)
+            r.inst(key, nontrivial=(t in ("Svg", "Math")))
+            if v != want:
+                r.violate(key, f"get_feedback_for_start_tag in the {ns.split('::')[-1]} namespace answers {v} for <{lc(t) if t not in (OTHER, EMPTY) else t}>, expected {want}: " + ("a nested <svg>/<math> must push its namespace, otherwise its end tag pops the outer one and the simulator believes it is back in HTML while still inside the island (CDATA sections, <title>/<style>/<script> there are mis-tokenized)" if t in ("Svg", "Math") else "the foreign-content rules apply exactly outside the HTML namespace"), "src/parser/tree_builder_simulator/mod.rs")
     # end tags: in foreign content the namespace is left for the root's own end tag and for </p>, </br>;
     # in the HTML content of an integration point for the integration point's own end tag (annotation-xml: full tag needed)
     sl = idx.one("should_leave_ns", owner="TreeBuilderSimulator")
